@@ -14,6 +14,8 @@ def instances(ctx):
     out = []
     for n in range(1, nmax + 1):
         for m in range(0, n + 1):
+            if ctx.tier != "thorough" and n == 3 and m in (0, 2):
+                continue      # quick: N=3 with MinSuccesses 1 and 3 only (all of them in thorough)
             for ro in (False, True):
                 out.append((n, m, ro))
     return out
@@ -85,6 +87,7 @@ def run(ctx):
         raise MachineryError("replay executed %d steps for %d transitions" % (res["steps"], edges_total))
     prod = goenv.run_harness(ctx, PKG, "^TestVerifC20Production$", timeout=1200)
     div += classify_mismatches(ctx, prod, "production")
+    sw = swarm_part(ctx)
     log("C20: %d instances, %d states, %d transitions generated, %d replay transitions, %d walks, %d steps"
         % (len(insts), states, trans, edges_total, n_walks, res["steps"]))
     cov = evidence.mc_coverage(
@@ -93,12 +96,54 @@ def run(ctx):
         checker_cmd="tlc C20_MC.tla (template C20_MC.cfg instantiated for N<=%d, MinSucc<=N, ReadOnly in {F,T})" % max(i[0] for i in insts),
         instances=len(insts), replay_transitions_in_graphs=edges_total, replay_steps_executed=res["steps"],
         replay_distinct_transitions_executed=res["distinct"], production_sequences=prod["replayed"],
-        production_steps=prod["steps"], divergences_L2=div, notes=ctx.notes[:10],
+        production_steps=prod["steps"], swarm_call_sites=sw, divergences_L2=div, notes=ctx.notes[:10],
         rule=res.get("rule"))
     return {"level": "model_checking", "coverage": cov, "assumptions": [
         "bounded instances N<=%d; production parameters (N=100, MinSuccesses=5) are exercised by seeded sequences under the same monitors, not exhaustively" % max(i[0] for i in insts),
         "manet.IsPublicAddr decides public/private for the concrete multiaddr forms used",
     ]}
+
+
+def swarm_part(ctx):
+    """The swarm's call sites (FilterAddrs before dialing, RecordResult after each dial): DialPeer sequences on a
+    real Swarm with small counters in virtual time, validated by TLC against spec/C20_SwarmObs.tla."""
+    from lib import tracecheck
+    from lib.common import save_replay
+    iters = 400 if ctx.tier == "thorough" else 80
+    res = goenv.run_harness(ctx, PKG, "^TestVerifC20Swarm$", timeout=1200, env={"VERIF_C20_ITERS": iters})
+    classify_mismatches(ctx, res, "swarm")
+    traces = []
+    for p in res.get("traces") or []:
+        if os.path.exists(p):
+            traces += tracecheck.load_ndjson(p)
+    if not traces:
+        raise MachineryError("the C20 swarm harness recorded no traces")
+    verdicts, _ = tracecheck.validate(ctx, "C20_SwarmObs", "C20_SwarmObs.cfg", traces, tag="c20sw", timeout=900, batch=200)
+    acc = sum(1 for v in verdicts if v.accepted)
+    withheld = probes = 0
+    for _n, _r, evs in traces:
+        seen = set()
+        for e in evs:
+            if e.get("ev") == "req":
+                seen = set()
+                want = e.get("upub")
+            if e.get("ev") == "tdial_start":
+                seen.add(e.get("k"))
+            if e.get("ev") == "ret" and want and not e.get("conn"):
+                if "upub" not in seen:
+                    withheld += 1
+    for v in verdicts:
+        if v.accepted:
+            continue
+        e = v.next_event or {}
+        cls = "swarm-" + ("address-withheld-or-probe-starved" if e.get("ev") == "ret" else e.get("ev", "rejected"))
+        path = save_replay(ctx, "swarm-trace-seed%d-%s.json" % (ctx.seed, v.name), v.as_dict())
+        ctx.violations.append({"cls": cls, "replay": path, "what": "swarm trace %s is not a behaviour of C20_SwarmObs at event %d/%d: %s" % (
+            v.name, v.matched, v.length, v.next_event)})
+    if withheld == 0 and not ctx.violations:
+        raise MachineryError("vacuous C20 swarm run: the black-hole filter never withheld an address")
+    return {"scenarios": res["replayed"], "events": res["steps"], "traces_accepted": acc,
+            "traces_rejected": len(verdicts) - acc, "requests_with_udp_withheld": withheld}
 
 
 def replay(ctx):
